@@ -27,6 +27,70 @@ const header = "From Coq Require Import List String.\nImport ListNotations.\nOpe
 type Case struct {
 	Script *Script   `json:"script,omitempty"`
 	Pred   *PredCase `json:"pred,omitempty"`
+	Term   *TermCase `json:"term,omitempty"`
+}
+
+const termHeader = "From Coq Require Import List.\nImport ListNotations.\nFrom Mv Require Import Model.TerminateFiles Harness.TerminateH."
+
+// runTermChild runs one removal-fault case in a child process.
+func runTermChild(c TermCase) string {
+	in, _ := json.Marshal(c)
+	ctx, cancel := context.WithTimeout(context.Background(), 120*time.Second)
+	defer cancel()
+	dir, derr := os.MkdirTemp("", "verif-ctl-")
+	if derr != nil {
+		panic(derr)
+	}
+	defer os.RemoveAll(dir)
+	cmd := exec.CommandContext(ctx, os.Args[0], "-child", "C29T")
+	cmd.Env = append(os.Environ(), "VERIF_CTL_DIR="+dir)
+	cmd.Stdin = bytes.NewReader(in)
+	var out, errb bytes.Buffer
+	cmd.Stdout = &out
+	cmd.Stderr = &errb
+	err := cmd.Run()
+	var r childResult
+	if err != nil || json.Unmarshal(out.Bytes(), &r) != nil || r.Coq == "" {
+		msg := errb.String()
+		if len(msg) > 1200 {
+			msg = msg[:1200]
+		}
+		panic(fmt.Sprintf("the process running the case died: %v\n%s", err, msg))
+	}
+	return r.Coq
+}
+
+// termMain is the whole run for -prop C29T.
+func termMain(cfg *hx.Config) {
+	w := hx.NewWriter(cfg, termHeader, "tcase", "c29t_failures", 50)
+	w.Rule = "a case is one real session (Manager.Create over two local roots; created paused, or running, or after one waiting flush, or paused after it) whose archive path is left alone, removed, or replaced by a directory that is not empty, and whose session file is left alone or removed, right before Manager.Terminate; recorded: whether Terminate returned nil, whether the session file and the archive path exist afterwards, whether a new manager (Shutdown + NewManager) lists the session; the scope is enumerated completely; non-trivial = a fault was injected"
+	w.Extra["exhaustive_scope"] = "archive path {file, missing, non-empty directory} x session file {present, removed} x session state {running, created paused, after a cycle, paused after a cycle}: 24 cases"
+	add := func(c TermCase, origin string) {
+		cc := c
+		w.Guard(Case{Term: &cc}, 150*time.Second, func() {
+			w.Add(hx.Case{Coq: runTermChild(c), Replay: Case{Term: &cc}, Nontrivial: c.Arch != "file" || c.NoSess,
+				Tags: []string{"arch:" + c.Arch, fmt.Sprintf("nosess:%v", c.NoSess)}, Origin: origin})
+		})
+	}
+	if cfg.Replay != "" {
+		b, err := os.ReadFile(cfg.Replay)
+		if err != nil {
+			panic(err)
+		}
+		var wrapper struct {
+			Case Case `json:"case"`
+		}
+		if json.Unmarshal(b, &wrapper) == nil && wrapper.Case.Term != nil {
+			add(*wrapper.Case.Term, "replay")
+		}
+		w.Close()
+		return
+	}
+	for _, c := range termCases() {
+		add(c, "exhaustive")
+	}
+	w.Close()
+	fmt.Printf("cases %d\n", w.Total())
 }
 
 func runScript(s *Script) (env *environment) {
@@ -121,6 +185,14 @@ func runChild(prop string, s *Script) childResult {
 }
 
 func childMain(prop string) {
+	if prop == "C29T" {
+		var c TermCase
+		if err := json.NewDecoder(os.Stdin).Decode(&c); err != nil {
+			panic(err)
+		}
+		json.NewEncoder(os.Stdout).Encode(childResult{Coq: runTermCase(c)})
+		return
+	}
 	var s Script
 	if err := json.NewDecoder(os.Stdin).Decode(&s); err != nil {
 		panic(err)
@@ -160,6 +232,10 @@ func main() {
 		return
 	}
 	cfg := hx.Parse()
+	if *prop == "C29T" {
+		termMain(cfg)
+		return
+	}
 	failFn := *fn
 	caseType := "hist"
 	if failFn == "" {
